@@ -28,11 +28,14 @@ THEOREMS = [
     "chunking_irrelevant_order", "chunking_irrelevant_topn", "chunking_irrelevant_hashagg",
     "chunking_irrelevant_sortagg", "chunking_irrelevant_semijoin", "chunking_irrelevant_hashsemijoin",
     "chunking_irrelevant_simpleagg_unsound", "chunkpath_rowcount",
-    # hash = nested loop under KeysComparable; full statements refuted
-    "hash_eq_nl_inner", "hash_eq_nl_semi", "hash_eq_nl_anti", "hash_semi2_eq_nl", "hash_eq_nl_left_outer", "hash_eq_spec_right_outer", "hash_eq_spec_full_outer", "hashjoin_inner_structural",
-    "chunking_irrelevant_hashjoin_inner",
-    "hash_eq_nl_unsound_null_key", "hash_eq_nl_unsound_int_width", "hash_anti_unsound_null_key",
-    "merge_eq_nl_unsound_null_key",
+    # hash joins (NULL keys never match since the fix: commit): characterised without hypothesis, = nested
+    # loop / spec under KeysComparable (same-type part), full statement refuted for mixed widths
+    "hashjoin_perm", "hashjoin_is_joinBag", "joinBag_eq_spec", "hash_eq_spec_partial",
+    "hash_eq_nl_inner", "hash_eq_nl_left_outer", "hash_eq_nl_semi", "hash_eq_nl_anti", "hash_semi2_eq_nl",
+    "hash_eq_spec_right_outer", "hash_eq_spec_full_outer",
+    "keysComparable_null_free", "hash_eq_nl_unsound_int_width",
+    # regression inputs: the witnesses of the former *_unsound_null_key theorems
+    "hashjoin_null_key_regression", "hash_anti_null_key_regression", "mergejoin_null_key_regression",
     # limit / top-N
     "limit_exec_eq_spec", "chunking_irrelevant_limit", "topn_eq_order_limit", "topn_eq_spec",
     # aggregation paths
@@ -43,8 +46,7 @@ THEOREMS = [
     "hashagg_groupwise", "hashagg_eq_spec_partial", "sortagg_one_run", "hashagg_eq_sortagg_one_run",
     # merge join
     "groupByKeys_eq_runs", "groupByKeys_empty_keys", "mergejoin_groups_sorted", "merge_eq_hash_empty_keys_unsound",
-    "mergeLoop_left", "mergejoin_inner_sorted", "merge_eq_hash_inner", "merge_eq_hash_left_outer",
-    "mergeLoop_perm", "mergejoin_sorted_perm", "hashjoin_perm", "merge_eq_hash",
+    "mergeLoop_perm", "mergejoin_sorted_perm", "merge_eq_hash", "merge_eq_spec",
     "saLoop_runs", "sortagg_runs", "hashagg_eq_sortagg", "hashagg_eq_sortagg_unsorted_unsound",
 ]
 
